@@ -345,3 +345,55 @@ Section PipelineSkeleton.
             end)).
   Qed.
 End PipelineSkeleton.
+
+(** * pypyr/steps/pype.py :: run_step — which outcomes of the child reach the parent *)
+Section PypeSkeleton.
+  Variable rp : string -> option (list string) -> option (list val) -> option string -> option string -> st -> R.
+
+  (** the body of the [try] as the model has it (parent context shared or a fresh child context
+      whose trace / sleeps / exception ids continue the parent's; [out] copied back on success) *)
+  Definition pype_body (pa : pype_args) (s : st) : R :=
+    if pa_use_parent pa then
+      let s1 := match pa_args pa with
+                | Some ((_ :: _) as a) => set_ctx s (dict_update (ctx s) a)
+                | _ => s
+                end in
+      rp (pa_name pa) (pa_parse pa) (pa_groups pa) (pa_success pa) (pa_failure pa) s1
+    else
+      let child0 := mkst (match pa_args pa with Some a => a | None => [] end) []
+                         (trace s) (sleeps s) (next_eid s) (jit s) in
+      let '(o, child) := rp (pa_name pa) (pa_parse pa) (pa_groups pa) (pa_success pa) (pa_failure pa) child0 in
+      let parent := mkst (ctx s) (stack s) (trace child) (sleeps child) (next_eid child) (jit s) in
+      match o with
+      | OOk =>
+          match pa_out pa with
+          | Some out =>
+              if py_truth out then
+                match out_pairs out with
+                | Some pairs => write_out pairs child parent
+                | None => (OUnsup, parent)
+                end
+              else (OOk, parent)
+          | None => (OOk, parent)
+          end
+      | _ => (o, parent)
+      end.
+
+  Lemma gen_pype_run_step_is_model s :
+    gen_pype_run_step pype_body s = pype_step rp s.
+  Proof.
+    unfold gen_pype_run_step, pype_step.
+    destruct (get_arguments s) as [pa|n m|]; try reflexivity. simpl lift.
+    unfold pype_body. destruct (pa_use_parent pa).
+    - destruct (rp _ _ _ _ _ _) as [[|[n m e|[| | |c|c]]|c|] s1]; try reflexivity;
+        simpl; destruct (pa_raise pa); reflexivity.
+    - destruct (rp _ _ _ _ _ _) as [o child]. cbv zeta.
+      destruct o as [|[n m e|[| | |c|c]]|c|]; try reflexivity;
+        try (simpl; destruct (pa_raise pa); reflexivity).
+      destruct (pa_out pa) as [out|]; [|reflexivity].
+      destruct (py_truth out); [|reflexivity].
+      destruct (out_pairs out) as [pairs|]; [|reflexivity].
+      destruct (write_out pairs child _) as [[|[n m e|[| | |c|c]]|c|] s1]; try reflexivity;
+        simpl; destruct (pa_raise pa); reflexivity.
+  Qed.
+End PypeSkeleton.
